@@ -41,6 +41,16 @@ let () =
             let texts = f.(8) :: List.map (fun (_, t) -> string_of_bytes t) ds in
             run_mock_gen (z_of_string f.(1)) (z_of_string f.(2)) (z_of_string f.(3)) (z_of_string f.(4))
               (parse_regs f.(5)) (z_of_string f.(6)) (unhex f.(7)) (bytes_of_string f.(8)) ds (names_of texts), 'A'
+          end else if f.(0) = "M" then begin
+            let recs = List.map (fun r -> String.split_on_char ';' r) (rest 6) in
+            let mk = function
+              | ia :: isz :: init :: ds -> { c_init = (z_of_string ia, bytes_of_string init); c_size = z_of_string isz; c_add = deltas ds }
+              | _ -> failwith "rec" in
+            let texts = List.concat_map (function
+              | _ :: _ :: init :: ds -> init :: List.map (fun (_, t) -> string_of_bytes t) (deltas ds)
+              | _ -> []) recs in
+            run_mock_multi_gen (z_of_string f.(1)) (z_of_string f.(2)) (parse_regs f.(3)) (z_of_string f.(4)) (unhex f.(5))
+              (List.map mk recs) (names_of texts), 'A'
           end else begin
             let k = match f.(1) with "x86" -> 0 | "amd64" -> 1 | _ -> 2 in
             let valid = if f.(3) = "all" then None
